@@ -408,33 +408,35 @@ theorem trigger_esm_moves (e : Env) (s s' : St) (a : Auc) (h : triggerEsm e s a 
 /-! ### the debt-side ledger that holds for EVERY history (several limit bids at one premium included) -/
 
 theorem init_invW (e : Env) (a : Auc) (b : Bank) (r : Option Int) (hs : Start e a) : InvW e (initSt e a b r) := by
-  refine ⟨by simp [initSt], by simp [initSt], by simp [initSt], by simp [initSt], ?_, ?_⟩
+  refine ⟨by simp [initSt], by simp [initSt], by simp [initSt], by simp [initSt], by simp [initSt], ?_, ?_⟩
   · intro a' ha'
     simp only [initSt, Option.some.injEq] at ha'
     subst ha'
-    refine ⟨rfl, ⟨?_, ?_, hs.price_nonneg, hs.init_nonneg, hs.window⟩, ?_⟩
+    refine ⟨rfl, ⟨?_, ?_, ?_, hs.price_nonneg, hs.init_nonneg, hs.window⟩, ?_⟩
     · simp only [initSt]; rw [hs.debt]; omega
+    · rw [hs.debt]; exact hs.target_nonneg
     · rw [hs.bonus]; exact hs.bonus_nonneg
-    · simp only [initSt]; omega
+    · simp only [initSt]
   · intro hn; simp [initSt] at hn
 
-/-- **custody of the debt side, for every history** — no hypothesis on the limit bids: any number of bidders may wait at one
-premium (D7), the collateral may be exhausted by a limit fill (D24), the reserve may be short (D23).  While the auction is open
-nothing the bidders paid has left the module account; once it is closed the module account holds, beyond what is not this
-auction's and the booked fees, exactly `paid + need − target ≥ 0`: what was collected (and asked from the reserve) beyond the
-target — 0 under the hypotheses of `close_custody_accounted`, the second collection of D7 otherwise — minus the reserve draw that
-was silently skipped (`short ≤ need`). -/
+/-- **custody of the debt side, for every history** — no hypothesis on the limit bids or the initiator: any number of bidders may
+wait at one premium (D7), the collateral may be exhausted by a limit fill (D24), the reserve may be short (D23), the app may be
+under emergency shutdown (`TriggerEsm` may run any number of times, D35).  While the auction is open, what the bidders paid is in
+the module account except for what `TriggerEsm` sent away (`esmOut`); once it is closed the module account holds, beyond what is
+not this auction's and the booked fees, exactly `paid + need − target ≥ 0`: what was collected (and asked from the reserve) beyond
+the target — 0 under the hypotheses of `close_custody_accounted`, the second collection of D7 otherwise — minus the reserve draw
+that was silently skipped (`short ≤ need`) and minus `esmOut`. -/
 theorem debt_custody_every_history (e : Env) (hw : WfEnv e) (a : Auc) (b : Bank) (r : Option Int) (hs : Start e a)
     (ops : List Op) (hops : ∀ op ∈ ops, WfOpW e op) :
     let s := run e (initSt e a b r) ops
-    0 ≤ s.paid ∧ 0 ≤ s.short ∧ s.short ≤ s.need ∧ 0 ≤ s.booked ∧
+    0 ≤ s.paid ∧ 0 ≤ s.short ∧ s.short ≤ s.need ∧ 0 ≤ s.booked ∧ 0 ≤ s.esmOut ∧
     (∀ a', s.auc = some a' → s.need = 0 ∧ e.target ≤ s.paid + a'.debt ∧
-        s.bank.get .auction .debt + s.short = s.otherD + s.booked + s.paid) ∧
+        s.bank.get .auction .debt + s.short + s.esmOut = s.otherD + s.booked + s.paid) ∧
     (s.auc = none → e.target ≤ s.paid + s.need ∧
-        s.bank.get .auction .debt + s.short = s.otherD + s.booked + (s.paid + s.need - e.target)) := by
+        s.bank.get .auction .debt + s.short + s.esmOut = s.otherD + s.booked + (s.paid + s.need - e.target)) := by
   have hi := run_w hw ops _ (init_invW e a b r hs) hops
   simp only
-  refine ⟨hi.paid_nonneg, hi.short_nonneg, hi.short_le, hi.booked_nonneg, ?_, ?_⟩
+  refine ⟨hi.paid_nonneg, hi.short_nonneg, hi.short_le, hi.booked_nonneg, hi.esm_nonneg, ?_, ?_⟩
   · intro a' ha'
     obtain ⟨o1, o2, o3⟩ := hi.open_ a' ha'
     exact ⟨o1, o2.cover, o3⟩
@@ -484,6 +486,12 @@ theorem esm_trigger_repeats_counterexample :
     esmFinal.paid = 100000 ∧ esmFinal.esmOut = 300000 ∧ esmFinal.bank.get .collector .debt = 300000 ∧
     esmFinal.otherD = 250000 ∧ esmFinal.bank.get .auction .debt = 50000 ∧ esmFinal.auc.isSome = true ∧
     esmFinal.bank.get .auction .coll = 1000000 - esmFinal.recv := by decide
+
+/-- the shutdown witness above is one of these histories: 100 000 paid, 300 000 sent away by `TriggerEsm` -/
+example : (∀ op ∈ esmOps, WfOpW wEnv op) := by
+  intro op hop
+  simp only [esmOps, List.mem_cons, List.mem_nil_iff, or_false] at hop
+  rcases hop with h | h | h | h | h | h <;> subst h <;> simp [WfOpW]
 
 /-- reserve shortfall: collateral worth less than the remaining target, reserve record = 10, a stranger's limit deposit of
 700 000 sits in the module account -/
